@@ -114,15 +114,21 @@ claimed = {
         "parseTokendef, parsePrecList, parseTypeList, parseStartSymbol, parseRule, parseDeclare and Parse's rule loop are proved to consume at least one token per "
         "iteration and to stop on EOF / Section / Error, with measure `tokens left before the first EOF`. Sender side: every token the lexer sends is proved to satisfy what the "
         "parser assumes of a received token (EndAt inside the input, non-empty character lexeme), lexer.error always sends its token, and the unterminated-comment loop is proved "
-        "PRODUCTIVE (each iteration consumes input or hands a token to the parser).",
+        "PRODUCTIVE (each iteration consumes input or hands a token to the parser). Beyond the front end, a TERMINATION ACCOUNTING covers everything reachable from "
+        "TemplateGenFromString / TsGenFromString (call graph recomputed on every run): `range` loops terminate by construction; every other loop must carry a `decreases` measure "
+        "- discharged by SMT in this run: the table construction and splitting loops, the precedence fold (measure: candidates left), walk, the PackTable loops, the builders' "
+        "rule loops, the LR(0) worklist (measure 2000 - i, from the built-in state limit) - or be LISTED as a termination assumption; a recursive function needs a listed "
+        "assumption too. A reachable loop with neither is a failed obligation.",
    note=TB + "Hypotheses (axioms, not proved): STREAM - the token stream contains an EOF token at a finite position spec_E() and only EOF tokens after it (this is what run()'s "
         "termination plus the closed-channel step deliver, but the link from the lexer's final emitEOF/close to the receive-side stream is assumption A-seq: unbuffered channel, "
         "one sender, one receiver, goroutine verified as sequential code); TOK - every received token has 0 <= EndAt <= len(input) and a character token has a non-empty lexeme "
         "(assumed at the receive site). Trusted: Lex (starts the goroutine), utf8.DecodeRuneInString / unicode.* / strings.HasPrefix as pure functions with their width facts. "
         "KNOWN LIMIT, documented not proved: CommentState's unterminated-comment loop sends an error token per iteration and never exits by itself; it blocks on its send once the "
-        "parser has stopped reading (the goroutine leaks; generation terminates). The later phases (LR(0) worklist, fixpoints, Digraph) have no termination proof. A BOUNDED "
+        "parser has stopped reading (the goroutine leaks; generation terminates). LISTED termination assumptions (not proved, each with its argument in the contract file): the three fixpoint loops CalculateCanTerminate / "
+        "CalculateEpsilonClosure / ComputeIClosure (a counting measure - number of unmarked symbols / missing items - is not expressible in this SMT encoding; monotonicity IS proved), "
+        "Traverse's recursion and pop loop (Digraph, bounded stand-in only), and the unterminated-comment loop above. Library calls are assumed to terminate. A BOUNDED "
         "stand-in (labelled bounded, not counted as proved) additionally parses every input of up to 3 fragments from an 18-fragment alphabet under a watchdog.",
-   design="§S.2 C13", technique="contract-based deductive verification (loop variants, state-machine rank, ghost token cursor) + bounded run-time stand-in for the unproved later phases"),
+   design="§S.2 C13", technique="contract-based deductive verification (loop variants, state-machine rank, ghost token cursor, termination accounting over the call graph) + bounded run-time stand-in"),
  "C14": dict(
    text="Every `range` over a map in the 100+ functions reachable from TemplateGenFromString / TsGenFromString (computed from the real call graph on every "
         "run) must be justified in a contract: swap commutation (body(k1);body(k2) and body(k2);body(k1) yield the same state, for every state and all "
